@@ -134,6 +134,8 @@ class Engine:
         if isinstance(v, LRef):
             return self._cur_zh["L_n"][v.id] > 0
         if isinstance(v, RefsDict):
+            if "refs_nonempty" not in self._cur_zh:
+                raise Unsupported("truth of the _refs dict (not modelled by this contract)")
             return self._cur_zh["refs_nonempty"][v.owner.t]
         if isinstance(v, Obj):
             import gfapy
